@@ -431,6 +431,13 @@ func TestDriverTwin(t *testing.T) {
 		if r.Chance(15) {
 			gen = append(gen, w.genNonceRace(r)...)
 		}
+		// ghosts (met by replicas 1.. only, never included) and variants of what the replicas met, now or earlier
+		rv := r.Fork(9191)
+		var gossip []*seenTx
+		if EnvInt("VERIF_TWIN_VARIANTS", 1) != 0 {
+			gossip = w.genGossip(rv, b)
+			gen = w.addVariants(rv, b, gen, gossip, special)
+		}
 		if deployTx != nil && deployLast {
 			gen = append(gen, deployTx)
 		}
@@ -455,7 +462,7 @@ func TestDriverTwin(t *testing.T) {
 					}
 				}
 			}
-			res, err := rep.runOn(w, raws, r.Fork(uint64(1000+rep.idx)))
+			res, err := rep.runOn(w, raws, gossip, r.Fork(uint64(1000+rep.idx)))
 			if err != nil {
 				halted = append(halted, fmt.Sprintf("%s: %.300s", w.describeCfgs()[i], err.Error()))
 				continue
@@ -546,6 +553,9 @@ func TestDriverTwin(t *testing.T) {
 				side.Count(g.Kind + ":" + resClass(tr))
 			}
 			side.Count("outcome:" + outcomeClass(g, tr))
+			if g.Kind == variantKind || g.Kind == cosmosVariantKind {
+				side.Count("variant-outcome:" + g.Kind + ":" + strings.SplitN(g.Mal, ":", 2)[0] + ":" + resClass(tr))
+			}
 			if g.apply != nil {
 				if c := w.applyCase(g, tr, i, gen); c != "" {
 					cases.Add(c)
@@ -612,6 +622,7 @@ func TestDriverTwin(t *testing.T) {
 				}
 			}
 		}
+		w.noteSeen(b, gen, gossip)
 		side.Count("special:" + special)
 		side.Count(fmt.Sprintf("block_txs:%d", len(gen)))
 		if len(res0.ValidatorUpdates) > 0 {
